@@ -342,6 +342,8 @@ def run(tier, seed):
     rep = Report("model_checking")
     acc = Acc()
     arrays = [list(t) for n in range(0, 5) for t in itertools.product(ALPHA, repeat=n)]
+    # labels are identifiers, not small numbers: a few arrays with labels around 10^6 and 2^40
+    arrays += [[1000000, 1000001], [1000001, 1000000, 1000001], [1000000, -1, 1000001, 1000002], [2**40, 2**40 + 1, 2**40], [999999, 1000000, 1000001]]
     small = [a for a in arrays if len(a) <= 3]
     big = [a for a in arrays if len(a) == 4]
     args = []
